@@ -145,7 +145,10 @@ fn fam_filters(ctx: &CaseCtx, cov: &mut Cov) -> CaseOut {
             let id: u64 = if systematic {
                 (ctx.index / 6) % 0x60
             } else {
-                match rng.below(5) {
+                match rng.below(7) {
+                // truncation candidates: IDs that equal 0x21 in their low 8 / 16 / 32 bits
+                5 => 0x21 | (1u64 << rng.range(8, 62)),
+                6 => 0x21 + (rng.range(1, 0x3FFF_FFFF) << *rng.pick(&[8u32, 16, 32])),
                 0 => rng.range(0, 0x20),
                 1 => rng.range(0x22, 0x7F),
                 2 => rng.range(0x80, 0x3FFF),
@@ -325,7 +328,7 @@ pub fn monitor(tier: Tier) -> Monitor {
     Monitor {
         id: "C18",
         level: "exploration",
-        rule: "cases = well-formed files using one feature outside the supported subset: each of the 16 check IDs x 0-3 blocks (digest correct for SHA-256), delta / six BCJ filters + LZMA2 written by liblzma, unknown filter IDs, each reserved bit of block flags and stream flags (header = footer, CRCs repaired), two concatenated streams with 0-8192 padding bytes, stream padding of 4-16384 bytes, the unsupported feature placed in a LATER block of a multi-block file (foreign filter chains of 1-4 filters, reserved block-flag bits, a SHA-256 file whose last block is empty); liblzma confirms well-formedness where it can; expected Err; distinct by hash of the file",
+        rule: "cases = well-formed files using one feature outside the supported subset: each of the 16 check IDs x 0-3 blocks (digest correct for SHA-256), delta / six BCJ filters + LZMA2 written by liblzma, unknown filter IDs (every ID 0x00-0x5F, random large ones, and IDs that coincide with 0x21 in their low 8 / 16 / 32 bits), each reserved bit of block flags and stream flags (header = footer, CRCs repaired), two concatenated streams with 0-8192 padding bytes, stream padding of 4-16384 bytes, the unsupported feature placed in a LATER block of a multi-block file (foreign filter chains of 1-4 filters, reserved block-flag bits, a SHA-256 file whose last block is empty); liblzma confirms well-formedness where it can; expected Err; distinct by hash of the file",
         assumptions: vec![
             "a SHA-256 file with zero blocks has nothing to verify: either verdict accepted there, success must deliver nothing (counted as lenient.sha256_zero_blocks)".into(),
             "unknown filter IDs cannot be confirmed by liblzma (it refuses them too)".into(),
